@@ -696,6 +696,28 @@ impl SwarmDriver {
         self.self_peer_id
     }
 
+    /// Puts a record into this driver's OWN record store (node mode), as a verified PUT does;
+    /// the read cache then serves it to `RecordStore::get` at once.
+    pub fn verif_put_local_record(&mut self, record: Record) -> std::result::Result<(), NetworkError> {
+        self.swarm
+            .behaviour_mut()
+            .kademlia
+            .store_mut()
+            .put_verified(record, ant_protocol::storage::RecordType::Chunk)
+            .map_err(NetworkError::from)
+    }
+
+    /// What this driver's own record store returns for a key.
+    pub fn verif_local_record(&mut self, key: &libp2p::kad::RecordKey) -> Option<Record> {
+        use libp2p::kad::store::RecordStore;
+        self.swarm
+            .behaviour_mut()
+            .kademlia
+            .store_mut()
+            .get(key)
+            .map(|r| r.into_owned())
+    }
+
     /// `Network::handle_split_record_error` (private to the crate root) on a caller-built map.
     pub fn verif_handle_split_record_error(
         result_map: &std::collections::HashMap<XorName, (Record, HashSet<libp2p::PeerId>)>,
